@@ -348,6 +348,9 @@ impl Shared {
                                     });
                                     let fname = field.unwrap_or_else(|| "length".into());
                                     let generic: String = fname.chars().filter(|c| !c.is_ascii_digit()).collect();
+                                    if fname.starts_with("pub") {
+                                        v.push(Viol::new(format!("C08:child-derivation:{}", generic), format!("embedded child public key field {} differs from the hash-sigs child seed/identifier derivation ({} counter {})", fname, self.cfg.label(), info.counter)));
+                                    }
                                     v.push(Viol::new(format!("C07:bytes-differ:{}", generic), format!("signature differs from the independent RFC 8554 signer first in field {} ({} counter {})", fname, self.cfg.label(), info.counter)));
                                 }
                             }
